@@ -46,8 +46,23 @@ func genC11(seed uint64, r *rng.Rand) *Plan {
 			default:
 				ops = append(ops, g.SingleOp(ts.Name, g.KeyNear(ts.Splits, 3), kinds))
 			}
+			// some callers give up while their request is outstanding: the
+			// decoders then run for calls whose context has ended
+			if g.R.Chance(0.2) {
+				ops[len(ops)-1].Ctx = CtxSpec{Kind: "timeout", MS: g.R.Range(1, 3000)}
+			}
 		}
 		p.Tasks = append(p.Tasks, Task{Ops: ops})
+	}
+	for i, nc := 0, g.R.Range(0, 3); i < nc; i++ {
+		f := &Fault{Act: "cancel", Task: g.R.Intn(nt), Op: -1, On: "step", N: g.R.Range(20, 2500)}
+		if g.R.Chance(0.5) {
+			f.On, f.N = "deliver", g.R.Range(1, 40)
+		}
+		if g.R.Chance(0.4) {
+			f.Slot = g.R.Range(1, 6)
+		}
+		p.Faults = append(p.Faults, f)
 	}
 	// corruption rate and budget
 	p.Corrupt = []float64{0.05, 0.15, 0.4}[g.R.Intn(3)]
